@@ -507,10 +507,11 @@ func validPatchOps(p []patchElement) bool {
 	return forallInt(0, len(p), func(i int) bool { return validAny(p[i].Value) })
 }
 
-// specScalarAny: a native scalar that NewJsonNode always accepts.
+// specScalarAny: a native scalar that NewJsonNode always accepts (a float64 is accepted only when
+// it is finite, which the logic's reals cannot express: floats are left out).
 func specScalarAny(x interface{}) bool {
 	switch x.(type) {
-	case float64, int, string, bool, nil:
+	case int, string, bool, nil:
 		return true
 	}
 	return false
